@@ -21,7 +21,8 @@ META = {
                   "and 16-bit pools (all bit patterns); _decode8/_decode16 hand exactly the declared slice to the decoder and require "
                   "the terminator; getString is the offset-table lookup with '' outside the table. Bounded (model-based): random XML "
                   "trees (nested elements, default/android/custom namespaces, attributes of the string/int/hex/bool/reference/"
-                  "dimension/float types, text, UTF-8 and UTF-16 pools, resource-id maps) serialised by an independent writer must come "
+                  "dimension/float/fraction/colour types, text and tails, U+FEFF, UTF-8 (incl. modified UTF-8) and UTF-16 pools, "
+                  "resource-id maps, attributeSize 20/24/28, names outside ASCII (open finding KF-C26-1)) serialised by an independent writer must come "
                   "back with the same element tree, namespace URIs, attribute names, typed values and text.",
     "trusted": ["independent writer specs/axmlwriter.py (ResourceTypes.h)", "lxml for tree construction / comparison",
                 "CPython codecs for utf-8 / utf-16 decoding"],
